@@ -13,7 +13,9 @@ THEOREMS = ['Dsd.' + t for t in [
     # the functions as written in the source (Gen/PyFuncs.lean, regenerated on every run) equal the model, for every input
     'PyFuncs.py_make_pair_table_eq', 'PyFuncs.py_pair_table_to_dot_bracket_eq', 'PyFuncs.py_mpt_rejects_iff',
     'PyFuncs.py_mpt_error_kind', 'PyFuncs.py_mpt_accepts_iff', 'PyFuncs.py_mpt_shape', 'PyFuncs.py_db_of_mpt',
-    'PyFuncs.py_rotate_error_kind', 'PyFuncs.py_rotate_short_structure_faults']]
+    'PyFuncs.py_rotate_error_kind', 'PyFuncs.py_rotate_short_structure_faults',
+    'PyFuncs.py_make_strand_table_list_eq', 'PyFuncs.py_make_strand_table_list_default', 'PyFuncs.py_make_strand_table_str_eq',
+    'PyFuncs.py_strand_table_to_sequence_list_eq', 'PyFuncs.py_strand_table_to_sequence_str_eq']]
 ASSUMPTIONS = [
     'make_pair_table is modelled as the linear stack matcher followed by re-indexing to loci (Model/Complex.lean); '
     'the re-indexing and the error kinds are tied to the code by the correspondence stream',
